@@ -239,8 +239,8 @@ def check_valid(sym: Symbol, s: str) -> Tuple[bool, Optional[str]]:
 
     base = 10 if sym.orig_type == INT else 16
     try:
-        # Symbol.set_value() does not accept negative hex values either
-        if int(s, base) < 0 and sym.orig_type == HEX:
+        # Symbol.set_value() accepts neither a negative hex value nor a sign in one (the text is applied as "0x" + text)
+        if (int(s, base) < 0 or s.strip()[0] in "+-") and sym.orig_type == HEX:
             raise ValueError
     except ValueError:
         return False, f"'{s}' is a malformed {TYPE_TO_STR[sym.orig_type]} value"
